@@ -676,10 +676,14 @@ pub fn pointer_chain_packet(k: usize, seg_label_len: usize) -> Vec<u8> {
 /// c2 00 ...) and later owner and rdata names point at it and at its inner suffix.
 pub fn aligned_pointer_packets() -> Vec<Vec<u8>> {
     let mut v = vec![];
-    for t in [254usize, 255, 256, 257, 258, 511, 512, 513, 767, 768, 1024] {
+    let mut ts: Vec<usize> = vec![254, 255, 256, 257, 258, 511, 512, 513, 767, 768, 1024];
+    ts.extend(259usize..=270);
+    ts.extend(520usize..=526);
+    ts.extend([250usize, 251, 252, 253, 1036]);
+    for t in ts {
         for with_opt in [false, true] {
             let q = nm("q.test");
-            let mut p = vec![0x12, 0x34, 0x81, 0x80, 0, 1, 0, 4, 0, 1, 0, if with_opt { 2 } else { 1 }];
+            let mut p = vec![0x12, 0x34, 0x81, 0x80, 0, 1, 0, 5, 0, 1, 0, if with_opt { 2 } else { 1 }];
             p.extend_from_slice(&q);
             p.extend_from_slice(&[0, 1, 0, 1]);
             // filler TXT record (owner root) sized so that the next record's owner starts at t
@@ -704,6 +708,11 @@ pub fn aligned_pointer_packets() -> Vec<Vec<u8>> {
             p.extend_from_slice(&[2, b'm', b'x']);
             p.extend_from_slice(&ptr(t));
             p.extend_from_slice(&[0, 15, 0, 1, 0, 0, 0, 3, 0, 4, 0, 7]);
+            p.extend_from_slice(&ptr(t));
+            // NS whose whole target is a bare pointer to t (data ends in the pointer's low byte)
+            p.extend_from_slice(&[1, b'n']);
+            p.extend_from_slice(&ptr(t + 5));
+            p.extend_from_slice(&[0, 2, 0, 1, 0, 0, 0, 6, 0, 2]);
             p.extend_from_slice(&ptr(t));
             // authority: SOA with both names pointing at t and t+5
             p.extend_from_slice(&ptr(t + 5));
@@ -904,4 +913,87 @@ pub fn all_label_bytes_messages() -> Vec<Msg> {
         v.push(m);
     }
     v
+}
+
+/// Pointer chains whose segments are laid out in every order: the owner points at S_{k-1}, S_i ends in a
+/// pointer to S_{i-1}, S_0 ends in the root. Only the layout in which every hop goes backward is well-formed.
+pub fn permuted_chain_packets() -> Vec<Vec<u8>> {
+    fn perms(n: usize) -> Vec<Vec<usize>> {
+        if n == 1 {
+            return vec![vec![0]];
+        }
+        let mut out = vec![];
+        for p in perms(n - 1) {
+            for i in 0..n {
+                let mut q = p.clone();
+                q.insert(i, n - 1);
+                out.push(q);
+            }
+        }
+        out
+    }
+    let mut v = vec![];
+    for k in 2..=4usize {
+        for order in perms(k) {
+            // order[j] = which segment is laid out j-th; every segment is 4 bytes: [1, label, ptr/ptr] or [1,label,0,pad]
+            let mut p = vec![0x12, 0x34, 0x80, 0, 0, 1, 0, 2, 0, 0, 0, 0];
+            p.extend_from_slice(&[1, b'q', 0, 0, 1, 0, 1]);
+            p.push(0);
+            p.extend_from_slice(&[0, 99, 0, 1, 0, 0, 0, 1]);
+            p.extend_from_slice(&((4 * k) as u16).to_be_bytes());
+            let base = p.len();
+            let pos_of = |seg: usize| base + 4 * order.iter().position(|&x| x == seg).unwrap();
+            for &seg in &order {
+                p.push(1);
+                p.push(b'a' + seg as u8);
+                if seg == 0 {
+                    p.extend_from_slice(&[0, 0]);
+                } else {
+                    let t = pos_of(seg - 1);
+                    p.extend_from_slice(&[0xc0 | (t >> 8) as u8, t as u8]);
+                }
+            }
+            let t = pos_of(k - 1);
+            p.extend_from_slice(&[0xc0 | (t >> 8) as u8, t as u8]);
+            p.extend_from_slice(&[0, 1, 0, 1, 0, 0, 0, 1, 0, 4, 1, 2, 3, 4]);
+            v.push(p);
+        }
+    }
+    v
+}
+
+/// Seed packets with each single header flag bit set (and all set) x every truncation, and with every
+/// record count inflated to 255 / 65535: a flag must never make a cut packet acceptable.
+pub fn flags_truncation_packets(mut f: impl FnMut(u64, &[u8])) -> u64 {
+    let mut n = 0u64;
+    let mut seeds: Vec<Vec<u8>> = closure_seeds(0);
+    // an expensive shared name: 120 one-byte labels as question, records pointing at it
+    let long = name_of_wire_len(241);
+    let mut m = base_msg(&long, T_A, true);
+    m.an.push(name_rec(&long, T_NS, 1, &long));
+    m.ns.push(mx_rec(&long, 1, 1, &long));
+    seeds.push(encode(&m, Strategy::Max));
+    for s in seeds.iter().filter(|s| s.len() < 300) {
+        for bit in 0..=16u32 {
+            let mut b = s.clone();
+            let w: u16 = if bit == 16 { 0xffff } else { 1 << bit };
+            b[2] |= (w >> 8) as u8;
+            b[3] |= w as u8;
+            for counts in 0..3 {
+                let mut c = b.clone();
+                if counts > 0 {
+                    let v: u16 = if counts == 1 { 255 } else { 65535 };
+                    for pos in [6usize, 8, 10] {
+                        c[pos] = (v >> 8) as u8;
+                        c[pos + 1] = v as u8;
+                    }
+                }
+                for cut in 12..=c.len() {
+                    f(n, &c[..cut]);
+                    n += 1;
+                }
+            }
+        }
+    }
+    n
 }
